@@ -62,6 +62,15 @@ def main(tier, seed):
             text = gen.render(gen.to_text_template(T), types={k: v for k, v in types.items()})
             extra.append(dict(it, id=it["id"] + "-declared", text=text, types=types, user_typed=sorted(types)))
     items += extra[: (4 if quick else 80)]
+    # declared instead of inferred types on variables that are assigned more than once per iteration
+    body = "x = 0\ny = 0\nz = 0\nwhile true:\n    x = Bernoulli(1/2)\n    if x == 1:\n        y = y + 1\n    end\n    z = z + x**2\n    x = 2*x\nend\n"
+    body2 = "f = 1\ns = 0\nwhile true:\n    f = DiscreteUniform(1, 3)\n    s = s + f**3\n    f = f - 1\n    if f == 0:\n        s = s + 1\n    end\n    f = 2*f\nend\n"
+    for name, decl, text, goals in (("twice_inferred", "", body, ["x", "y", "z", "x**2"]),
+                                    ("twice_declared", "types\n    x : Finite(0, 2)\nend\n", body, ["x", "y", "z", "x**2"]),
+                                    ("thrice_inferred", "", body2, ["f", "s", "f**2"]),
+                                    ("thrice_declared", "types\n    f : Finite(0, 2, 4)\nend\n", body2, ["f", "s", "f**2"])):
+        items.append({"id": "decl-" + name, "text": decl + text, "T": None, "goals": goals, "points": [{}],
+                      "origin": "declared vs inferred types: " + name, "user_typed": ["x", "f"]})
     variants = [("", {}), ("-c2a", {"cond2arithm": True}), ("-tc", {"transform_categoricals": True}),
                 ("-cyc", {"__force_cyclic": True}), ("-nr", {"numeric_roots": True, "numeric_eps": 1e-10}),
                 ("-ncr", {"numeric_croots": True})]
